@@ -94,6 +94,21 @@ def run_pre(ops, L, pool):
             pass
 
 
+def taken(tags, k):
+    """the caller owns what get_tags returns: record it, then edit the returned set in place"""
+    out = sorted(int(t[1:]) for t in tags)
+    try:
+        if k % 3 == 0:
+            tags.clear()
+        elif k % 3 == 1:
+            tags |= {"t1", "t2", "t3", "t9"}
+        else:
+            tags.discard("t1"); tags.discard("t2"); tags.add("t3")
+    except AttributeError:
+        pass
+    return out
+
+
 def run_case(c):
     pool = {}
     if c.get("pre_ops"):
@@ -111,7 +126,7 @@ def run_case(c):
         for k, b, name in adds:
             try:
                 s, l = b.get_location_and_length(name)
-                snap.append([k, s, l, sorted(int(t[1:]) for t in b.get_tags(name))])
+                snap.append([k, s, l, taken(b.get_tags(name), k + len(outs))])
             except Exception as e:
                 snap.append([k, None, None, classify(e)])
         return snap
@@ -140,7 +155,7 @@ def run_case(c):
                                field=None if op[3] is None else fname(op[3]))
                 r = ["z", v, snapshot()]
             elif kind == "tags":
-                r = ["tags", sorted(int(t[1:]) for t in b.get_tags(fname(op[2])))]
+                r = ["tags", taken(b.get_tags(fname(op[2])), k)]
             elif kind == "loc":
                 s, l = b.get_location_and_length(fname(op[2]))
                 r = ["pair", s, l]
